@@ -3,8 +3,8 @@
 # store it under /verif/seeded/<PID>-<N>/ (patch.diff, demo.py, notes.md, meta.json).
 set -u
 PID=$1; CH=$2
-SRC=/tmp/seed_out/$PID/$CH
-N=${CH#change}
+SRC=${SEED_SRC:-/tmp/seed_out}/$PID/$CH
+N=${3:-${CH#change}}
 DST=/verif/seeded/$PID-$N
 WT=$(mktemp -d /tmp/cw.XXXXXX)
 rmdir $WT
